@@ -4,8 +4,19 @@
 From Coq Require Import QArith Qabs List Arith ZArith Bool Permutation.
 From MdpaxV Require Import Model.ListUtil Model.QFun Model.MDP Model.Bellman Model.Batching Model.Kernel Model.SemiAsync
      Model.GaussSeidel Proofs.ContractionP Proofs.C01P Proofs.GaussSeidelP Proofs.C06P Proofs.C06DeviceP Proofs.C06CompP Proofs.C01GsP.
+From MdpaxGen Require Import GenSemiAsync.
 Import ListNotations.
 Open Scope Q_scope.
+
+(* the tie of Model/SemiAsync.sa_batch to the code: the scan body GENERATED from the source makes exactly the choices
+   the model transliterates - positional carry with the value vector last, the batch backed up against the CARRIED
+   vector, scatter indices looked up per state row, padding slots rewriting the current entry, outputs = the new
+   batch values (any other statement in scan_fn fails the translation) *)
+Theorem scan_body_is_the_modelled_one :
+  scan_carry = [CActions; CEvents; CGamma; CValues] /\ scan_backup_input = FromCarriedValues /\
+  scan_index_source = IdxStateLookup /\ scan_masked_write = PaddingKeepsCurrent /\ scan_output = NewBatchValues.
+Proof. repeat split; reflexivity. Qed.
+Print Assumptions scan_body_is_the_modelled_one.
 
 (* THE PROPERTY, full strength, about the code-shaped sweep `savi_sweep` (permute, pad with the all-zero row,
    reshape into devices x batches x slots by the GENERATED layout, per-device scan whose carried vector is
